@@ -111,6 +111,7 @@ def run(ctx, n, failures):
             pre_idx.append(i)
     pouts = run_models(pre_enc)
     prefix = {i: (dec(pouts[2 * k])["done"], dec(pouts[2 * k + 1])["done"]) for k, i in enumerate(pre_idx)}
+    first_broken, first_genuine = None, None
     for i, (c, r, mo) in enumerate(zip(cases, impl, mouts)):
         m = dec(mo)
         d = {k: c[k] for k in ("n_threads", "n_items", "n_outcomes_per_job", "fail_items", "kind", "schedule")}
@@ -120,11 +121,23 @@ def run(ctx, n, failures):
         rep.hist("controlled_failing_items", len(c["fail_items"]))
         rep.bump("controlled_turns", r["turns"])
         log = r["log"]
+        over = not r["schedule_exhausted_with_live_threads"] and not r["stuck"]
         got = {"trace": [e[2] for e in log if e[0] == "ran"],
                "finished": [e[2] for e in log if e[0] == "finished"],
                "errs": [e[2] for e in log if e[0] == "raised"],
                "dead": [e[1] for e in log if e[0] == "raised"][::-1],
-               "done": 0 if r["schedule_exhausted_with_live_threads"] else 1}
+               "done": 1 if over else 0}
+        # (1) the property itself on the real code, whatever the model says about the steps
+        prop_bad = None
+        if over:
+            if not c["fail_items"] and sorted(got["trace"]) != list(range(c["n_items"])):
+                prop_bad = ("all threads ended but the work items were not trained exactly once each: kernel calls ran "
+                            "for items %r" % (got["trace"],))
+            elif not c["fail_items"] and r["status"] != "ok":
+                prop_bad = "the call raised %s %s although no kernel call failed" % (r.get("type"), r.get("message"))
+            elif got["errs"] and r["status"] == "ok":
+                prop_bad = "the kernel call of item %d raised and the call returned weights" % got["errs"][0]
+        # (2) step alignment with the model
         bad = None
         if r["stuck"]:
             bad = "a worker thread did not reach its next step: %s" % r["stuck"]
@@ -146,31 +159,24 @@ def run(ctx, n, failures):
                          "errs": "the items whose call raised, in order",
                          "dead": "the threads that died"}[key], got[key], m[key])
                     break
-        if not bad and got["done"]:
-            # what the call did: it raises the first recorded error, and returns only if there is none
-            if m["errs"]:
+            if not bad and over and m["errs"]:
                 want = "injected failure in item %d" % m["errs"][0]
-                if r["status"] != "raise" or want not in (r.get("message") or ""):
-                    bad = "the call must raise the first recorded error (%s); it %s" % (
-                        want, "returned" if r["status"] == "ok" else "raised %s %s" % (r.get("type"), r.get("message")))
-            elif r["status"] != "ok":
-                bad = "the call raised %s %s although no work item failed" % (r.get("type"), r.get("message"))
-            if not bad and i in prefix and prefix[i] != (1, 0):
+                if r["status"] == "raise" and want not in (r.get("message") or ""):
+                    bad = "the call must raise the first recorded error (%s); it raised %s %s" % (
+                        want, r.get("type"), r.get("message"))
+            if not bad and over and i in prefix and prefix[i] != (1, 0):
                 bad = ("the real threads needed %d schedule entries; the model says all-ended=%r for that prefix and "
                        "%r for the prefix one shorter (expected 1 and 0)" % (r["schedule_used"], prefix[i][0], prefix[i][1]))
-        if bad:
-            # is the disagreement itself a failure of the property on the real code (then the case is the replay),
-            # or only a step structure that no longer matches the model (then: no failing input found here)?
-            genuine = False
-            if got["done"] and not r["stuck"]:
-                if not c["fail_items"] and sorted(got["trace"]) != list(range(c["n_items"])):
-                    genuine = True            # a work item was trained twice or never although all threads ended
-                if got["errs"] and r["status"] == "ok":
-                    genuine = True            # a kernel call raised and the call returned weights
-            rep.violation("controlled schedule: " + bad,
-                          {"correspondence": "X-sched-det", "theorems": THEOREMS, "case": d, "events": c["events"],
-                           "impl": {k: r[k] for k in r if k != "log"}, "impl_log": log, "model": m},
-                          no_input=not genuine)
+        detail = {"correspondence": "X-sched-det", "theorems": THEOREMS, "case": d, "events": c["events"],
+                  "impl": {k: r[k] for k in r if k != "log"}, "impl_log": log, "model": m}
+        if prop_bad and first_genuine is None:
+            first_genuine = (prop_bad, detail)
             break
+        if bad and first_broken is None:
+            first_broken = (bad, detail)            # keep looking for an input on which the property itself fails
+    if first_genuine:
+        rep.violation("controlled schedule: " + first_genuine[0], first_genuine[1])
+    elif first_broken:
+        rep.violation("controlled schedule: " + first_broken[0], first_broken[1], no_input=True)
     rep.coverage["traces_validated_against_impl"] += len(cases)
     return len(cases), encs, mouts
